@@ -719,8 +719,10 @@ def judge_generated(ctx, tools, enums, runner, cases, asts, srcs):
                               "input.json": json.dumps(info.get("input", c["inp"]))})
                 detail = info.get("detail") or detail
             else:
+                # out of shrinking time: one shared key per class (a signature of the whole program would change from
+                # seed to seed); by then the run has already reported the shrunk ones
                 st["not_shrunk_budget"] += 1
-                key = mslgen.key_of(cls + ":unshrunk", asts[name])
+                key = "gen:%s:unshrunk" % cls
                 files["input.wgsl"] = srcs[name]
             files["key.txt"] = key
             if key in reported:
